@@ -123,7 +123,7 @@ func (s *Sched) Go(name string, f func()) *Task {
 		<-t.wake
 		defer func() {
 			if v := recover(); v != nil {
-				if _, ok := v.(abortExec); !ok {
+				if _, ok := v.(abortExec); !ok && !s.aborted {
 					buf := make([]byte, 4096)
 					buf = buf[:runtime.Stack(buf, false)]
 					s.Panicked = fmt.Sprintf("task %s: %v\n%s", t.Name, v, buf)
@@ -143,6 +143,10 @@ func (s *Sched) Go(name string, f func()) *Task {
 
 	return t
 }
+
+// Aborted reports whether the execution is being torn down (deadlock or
+// step limit); shim operations then return without touching their state.
+func (s *Sched) Aborted() bool { return s.aborted }
 
 // Self returns the running task.
 func (s *Sched) Self() *Task { return s.cur }
@@ -317,7 +321,7 @@ func (s *Sched) Describe() string {
 
 			continue
 		}
-		if p.Task != last {
+		if p.Task != last || os.Getenv("VERIF_TRACE") != "" {
 			name := "?"
 			if p.Task < len(s.tasks) {
 				name = s.tasks[p.Task].Name
